@@ -3,11 +3,53 @@ from vq.meta import _m
 _m(
     "C16",
     "exploration",
-    "placeholder",
-    [],
+    "Hypothesis draws one of five case kinds; every array is a pure function of a drawn integer seed (complex normal, "
+    "scale 1e-3/1/1e3 where the identity is linear).  shift: complex128/complex64 2-D array or probe stack (M<=4), roi "
+    "2..16 per axis (odd/even, non-square), numpy or torch backend, 1-3 positions with real shifts a, b (fractional, "
+    "+-3x size, halves, integers) and integer shifts s (|s| <= 3x size).  prop: roi 2..16, sampling 0.1-1 A, energy "
+    "10 keV-1 MeV, tilts 0 or +-30 mrad, two signed distances in +-40 A (stack a, b, a+b, -a), complex128/complex64 "
+    "waves.  adjoint: object (S<=3, 2..14 per axis), patches (N<=4, 1..8 per axis) real or complex in 32/64 bit, index "
+    "sets random / four distinct values (heavy repeats) / distinct / wrapped windows, int32 or int64.  chain: public "
+    "constructors (Dataset4dstem -> PtychographyDatasetRaster.preprocess -> ProbePixelated.from_array, "
+    "ObjectPixelated.from_array with random phases -> Ptychography.preprocess), roi 2..12, scan grid 2..4 per axis, "
+    "S 1..4 with scalar or per-slice thicknesses 1-30 A, M 1..4, tilts, padding 0..5, pure_phase or potential object, "
+    "descan ramps on/off, scan-position jitter 0/0.7/8 px (clipped, patches wrap), probe orthogonalisation on/off, "
+    "float32 or float64 configuration, full or half batch.  proj: same construction, overlap (M<=4, N<=3, roi), measured "
+    "amplitudes exact zeros (0/20/80/100 %) or in [1e-3, 2]*scale.  A case is NON-TRIVIAL when: shift - some shift "
+    "component is non-integer on an even-length axis; prop - a propagator carries more than 0.01 rad of phase; adjoint - "
+    "the index set contains a repeated index; chain - S >= 2 or M >= 2; proj - the measured amplitudes contain an exact "
+    "zero or M >= 2.  distinct = SHA-1 of the canonical JSON of the whole case.",
+    [
+        "only the identities named in the property are asserted (energy, composition, integer shift == np.roll, unit "
+        "modulus, P(-z)P(z) == 1, P(a)P(b) == P(a+b), adjointness, per-pattern intensity sum, projected magnitudes == "
+        "measured, idempotence); the Fresnel formula itself and the geometry of dataset patch indices are not asserted",
+        "'scatter is the adjoint of gather' is judged element-wise against np.add.at (the transpose of the index-gather "
+        "matrix) and as an inner-product identity with quantem's own gather, whose output must equal object[indices]",
+        "Fourier magnitudes are laid out like DetectorPixelated.forward output (np.fft.fftshift of the corner-centred "
+        "pattern), the layout of dset.targets that reconstruct() passes to gradient_step",
+        "tolerances: translation vs exact roll 2e-6*(1+|s|)*||x||_2 (phase ramp built from float32 fftfreq: rigorous bound "
+        "1.9e-7*(|s_r|+|s_c|)*||x||_2; clean tree reaches 0.03 of the tolerance); 1e-10 relative for energy / composition "
+        "/ adjoint / projection on complex128 (clean tree <= 1e-15); complex64: 1e-4 relative, or 1e-5*(1+|s|)+2e-5 for "
+        "translations; propagators are always complex64: 5e-6 for |P|, 4e-6*(1+phase) for products (clean tree 2e-7), "
+        "1e-5 relative for energy; forward chain 1e-10 (complex128, one slice), 1e-5 (complex128, multislice), 3e-5 "
+        "(complex64) (clean tree 1e-15 / 1.5e-7 / 7e-7)",
+        "mixed-state projection: estimate_amplitudes adds a documented 1e-9 regulariser to every Fourier coefficient, so "
+        "magnitudes match to m*sqrt(M)*1e-9/sqrt(S) (triangle inequality); the tolerance is 4x that bound plus rounding; "
+        "non-zero measured amplitudes are >= 1e-3 of the scale and overlaps are random (no exactly vanishing Fourier "
+        "coefficient in all modes, where no rescaling can produce the measured amplitude)",
+        "real-valued arrays are outside the translation domain (the property quantifies over complex arrays; the real "
+        "path takes .real, which is not unitary at the Nyquist frequency)",
+        "scan grids have >= 2 points per axis and a field of view of >= 1 object pixel (a 1-point axis gives a "
+        "zero-width object: degenerate geometry, outside the property)",
+    ],
     workers=(1, 16),
-    technique="property-based testing (Hypothesis)",
-    text="",
-    note="",
+    technique="property-based testing (Hypothesis) of algebraic identities (unitarity, composition, exact rolls, adjointness, "
+    "Parseval through the public forward chain, projection idempotence) with numpy float64 oracles; hypothesis.target "
+    "maximises error/tolerance",
+    text="Generated-input search over the five operator families; each case is judged against the identities of the property "
+    "with an independent numpy oracle (np.roll, np.add.at, float64 ortho FFT).  The worst observed error/tolerance ratio "
+    "per identity is reported under coverage.extra.  Exploration only: no absence claim.",
+    note="Identities that hold for any unit-modulus propagator cannot see a wrong sign, a wrong frequency scale or even an "
+    "identity propagator; those are left to C02's differential simulator.",
     design="DESIGN.md §3 C16",
 )
